@@ -308,3 +308,17 @@ CHECKS['C04']['text'] += (
 CHECKS['C05']['text'] += (
     " T2 on the STAGE-2 engine model (Inv/Servers2.v): run_many_nonidle2 / NonIdle2_means - at a finite non-slotted node, whenever a customer in the queues records no server every on-duty server is busy, over any number of events in the scope srv_scope "
     "(with Schedules, overtime, interruptions and pre-emption).")
+CHECKS['C02']['text'] += (
+    " T2 on the STAGE-2 engine model (Inv/Clock2.v, 2 500 lines; Properties/C02_stage2.v): event_step_clk2 / run_many_clk2 / run_many_monotone2 / Clk2_means - with the five kinds of node events (slot, shift change, end of service, class change, renege) "
+    "and their tie order: nothing is scheduled in the past (arrival dates, server end dates, shift date = D k, slot date, waiting customers' reneging and class-change dates), the active node's date is the clock, and the clock never decreases, for draws >= 0 and "
+    "well-formed timetables, in the executable scope Clock2.scope (no pre-emption of any kind; or pre-emption without the resume option and without class change while waiting, where victims are rerouted unless no node has reneging); "
+    "clock_monotone_refuted_F02a / _F02b / _F02c are closed witnesses of the three open findings outside it (the clock goes 14 -> 9, 10 -> 6, 5 -> 2).")
+CHECKS['C14']['text'] += (
+    " T2 on the STAGE-2 engine model (Inv/HorizonCount2.v, 1 360 lines; Properties/C14_stage2.v): engine_count / run_count_last / run_many_count_mono (the count loop over Engine2 stops after the first event at which the count reaches n; the four counts are monotone; "
+    "every configuration and oracle), count_means (completed <= finished <= arrived, accepted <= arrived, arrived - accepted <= finished - completed) and run_many_accounts (exact accounting through the renege / baulk / rejection records written); "
+    "stage1_identity_refuted (with reneging to the exit the stage-1 identity finished - completed = arrived - accepted is false, as intended by Ciw); engine_until2, run_until2_split_eq and run_count_split_eq (pause / resume of both loops, no hypothesis at all).")
+CHECKS['C18']['text'] += (
+    " T2 on the (stage-1) ENGINE MODEL (Inv/Knot.v; Properties/C18_engine.v): knot_is_permanent / deadlock_is_permanent - if a non-empty set K of finite-server nodes is such that every server of every node of K holds a customer blocked towards a node of K "
+    "(the structural definition of the property) then, for every configuration, every state satisfying SrvInv and Who, every oracle and ANY number of events, every node of K keeps exactly its server objects and each of those customers is still at its node with an "
+    "untouched record: a structural deadlock is genuine; deadlocked_b_iff ties it to Sub/Deadlock.v's pruning computation. K3: Knot.deadlocked_b (extracted, dispatch 39) is evaluated on the real engine's snapshots of every simulate_until_deadlock run "
+    "(encoded as engine-model states) and must agree with the verdict at that frame, and the hypotheses of the permanence theorem must hold there.")
